@@ -24,6 +24,10 @@ def _check(xs):
         raise Poisoned("poisoned argument")
 
 
+CALLS = {}        # run id -> list of evaluated nodes; node functions refer to it by id only, so that a model written
+_RID = [0]        # with save_model and read back (a deep copy of every function) still reports to its run
+
+
 class Term(str):
     """String term that survives liesel's _reduced_sum (0 + term)."""
 
@@ -102,7 +106,9 @@ class GraphRun:
     def __init__(self, plan, atoms=("a0", "b0")):
         self.plan = plan
         self.n = len(plan)
-        self.calls = []
+        _RID[0] += 1
+        self.rid = _RID[0]
+        self.calls = CALLS[self.rid] = []
         self.nodes = {}
         self.vars = {}
         init = {}
@@ -145,17 +151,22 @@ class GraphRun:
         self.calls.clear()
         self.slots = []
 
+    def close(self):
+        CALLS.pop(self.rid, None)
+
     def _fn(self, i, kind, seeded=False):
+        rid = self.rid
+
         def fn(*xs, seed=None):
             _check(xs)
             if kind == "c":
-                self.calls.append(i)
+                CALLS[rid].append(i)
             args = [str(x) for x in xs] + ([_keystr(seed)] if seeded else [])
             return Term(f"f{i}(" + ",".join(args) + ")")
         return fn
 
     def _dist(self, i, kind):
-        run = self
+        rid = self.rid
 
         class FakeDist:
             def __init__(self, *params):
@@ -164,7 +175,7 @@ class GraphRun:
             def log_prob(self, x):
                 _check((*self.params, x))
                 if kind == "d":
-                    run.calls.append(i)
+                    CALLS[rid].append(i)
                 return Term(f"f{i}(" + ",".join(str(v) for v in (*self.params, x)) + ")")
         return FakeDist
 
@@ -236,6 +247,9 @@ class GraphRun:
                 m.state = self.slots[o["slot"] - 1]
             elif o["ev"] == "rebuild":
                 return self.rebuild(o["n"], o["x"])
+            elif o["ev"] == "reload":
+                self.reload()
+                ev["auto"] = bool(self.model.auto_update)
             elif o["ev"] == "set_seed":
                 import jax
                 m.set_seed(jax.random.PRNGKey(o["seed"]))
@@ -245,6 +259,13 @@ class GraphRun:
             if not isinstance(ex, Poisoned) and not isinstance(ex.__cause__, Poisoned):
                 raise
             ev["raised"] = True
+            if o["ev"] == "set_seed":
+                # aborted half-way: the assignments the call was making (the ones carried out are checked against the
+                # values observed below)
+                import jax
+                ids = {self._name(i): i for i in range(1, self.n + 1)}
+                keys = jax.random.split(jax.random.PRNGKey(o["seed"]), len(m._seed_nodes))
+                ev["assigned"] = [[ids[nd.name], _keystr(k)] for nd, k in zip(m._seed_nodes, keys)]
         ev.update(self.snapshot())
         return ev
 
@@ -270,11 +291,26 @@ def _rebuild(self, n, x):
     return ev
 
 
+def _reload(self):
+    """save_model / load_model round trip at an arbitrary point of the history (a "crash point"): the run goes on
+    with the model read back; the driver's node and var handles are re-bound by name."""
+    import io
+    buf = io.BytesIO()
+    lsl.save_model(self.model, buf)
+    buf.seek(0)
+    self.model = lsl.load_model(buf)
+    for i in list(self.nodes):
+        self.nodes[i] = self.model.nodes[self._name(i)] if self._name(i) in self.model.nodes else self.nodes[i]
+    for i in list(self.vars):
+        self.vars[i] = self.model.vars[f"var{i}"]
+
+
+GraphRun.reload = _reload
 GraphRun.rebuild = _rebuild
 GraphRun._configure_builder = lambda self, gb: None
 
 
-def gen_ops(rng, plan, nops, atoms=("a", "b", "c")):
+def gen_ops(rng, plan, nops, atoms=("a", "b", "c"), reload_ok=False):
     vals = [i + 1 for i, p in enumerate(plan) if p["kind"] == "v" and not p.get("seed_for")]
     seeded = any(p.get("seeded") for p in plan)      # (a rebuild would reset the model's seed nodes: not combined)
     nslots = 0
@@ -311,6 +347,8 @@ def gen_ops(rng, plan, nops, atoms=("a", "b", "c")):
         elif r < 0.26 and vals:
             # (only when no poisoned value is around: a build whose node function raises fails)
             ops.append({"ev": "rebuild", "n": rng.choice(vals), "x": rng.choice(atoms) + str(rng.randint(6, 8))})
+        elif r < 0.30 and reload_ok:
+            ops.append({"ev": "reload"})
         elif r < 0.45:
             i = rng.choice(vals)
             ops.append({"ev": "assign", "n": i, "x": rng.choice(atoms) + str(rng.randint(0, 2)),
@@ -334,8 +372,9 @@ def random_trace(rng, nmax=8, maxops=30):
     plan = gen_plan(rng, nmax, seeded_ok=True)
     run = GraphRun(plan)
     hdr = run.header(hidden=True)
-    ops = gen_ops(rng, plan, rng.randint(5, maxops))
+    ops = gen_ops(rng, plan, rng.randint(5, maxops), reload_ok=True)
     ev = [run.op(o) for o in ops]
+    run.close()
     hdr["ops"] = ops
     return {"hdr": hdr, "ev": ev}
 
